@@ -3,7 +3,7 @@ import os
 
 import numpy as np
 
-from .. import env, core, gen, conv, spec, mksegy, symcodec, writercorr
+from .. import segyrawcorr, env, core, gen, conv, spec, mksegy, symcodec, writercorr
 from seismic_zfp.read import SgzReader  # noqa: E402
 
 ASSUMPTIONS = ["A1 zfpy cellwise (validated in-run)", "A2 segyio/pyvds/pyzgy deliver the source samples (IBM->IEEE, VDS, ZGY)",
@@ -58,6 +58,12 @@ def one_case(ctx, rng, k, model):
                 conv.segy_to_sgz(sgy, out, q, bs_arg, reduce_iops=route.endswith('ri'), style=k // 8, window=(a0, a1, 0, n[1]))
                 src = src[a0:a1]
                 ctx.stats['windowed'] += 1
+            elif route == 'segy-ri':
+                # K: Model/SegyRaw - the range reads the reduced-I/O reader issues on the SEG-Y file
+                with segyrawcorr.logged_reads() as rlog:
+                    conv.segy_to_sgz(sgy, out, q, bs_arg, reduce_iops=True, style=k // 8)
+                if ext == 0 and model is not None:
+                    segyrawcorr.check(ctx, model, list(rlog), n, bs[0], desc)
             else:
                 conv.segy_to_sgz(sgy, out, q, bs_arg, reduce_iops=route.endswith('ri'), style=k // 8)
     except Exception as e:  # noqa
